@@ -69,20 +69,6 @@ Section Alloc.
   Qed.
 End Alloc.
 
-(* ---- bits of a new directory ---------------------------------------------------------------------------------------------------- *)
-Lemma new_dir_not_setgid (v : view) (perm : N) :
-  v_os v = Linux ->
-  is_setgid (m_mode (new_meta v (dir_mode (v_os v)) (N.land perm (511 + MODE_STICKY)))) = false.
-Proof.
-  intros Hos. rewrite Hos. unfold is_setgid, has, new_meta. cbn [m_mode dir_mode].
-  apply Bool.negb_false_iff, N.eqb_eq, N.bits_inj. intros i. rewrite N.land_spec, N.lor_spec, N.ldiff_spec, !N.land_spec, N.bits_0.
-  destruct (N.eq_dec i 22) as [->|Hi].
-  - change (N.testbit MODE_DIR 22) with false. change (N.testbit (511 + MODE_STICKY) 22) with false.
-    rewrite !Bool.andb_false_r. reflexivity.
-  - replace (N.testbit MODE_SETGID i) with false; [apply Bool.andb_false_r|].
-    change MODE_SETGID with (2 ^ 22)%N. symmetry. apply N.pow2_bits_false. congruence.
-Qed.
-
 (* ---- the chain in the heap ------------------------------------------------------------------------------------------------------ *)
 Lemma mk_chain_app (s : fsys) (v : view) (dn : nat) (a b : list str) (perm : N) :
   mk_chain s v dn (a ++ b) perm = let '(s1, n1) := mk_chain s v dn a perm in mk_chain s1 v n1 b perm.
@@ -109,24 +95,19 @@ Lemma create_dir_at (s : fsys) (v : view) (done : list str) (dn : nat) (c : str)
   alookup str_eqb c (children (f_heap s) dn) = None ->
   let s1 := fst (create_dir s v dn c perm) in
   let n := snd (create_dir s v dn c perm) in
-  dir_at s1 v (done ++ [c]) n /\ children (f_heap s1) n = []
-  /\ is_setgid (m_mode (meta_of (f_heap s1) n)) = false.
+  dir_at s1 v (done ++ [c]) n /\ children (f_heap s1) n = [].
 Proof.
   intros Hos Ha Hd Hfr. destruct (dir_at_dir _ _ _ _ Ha Hd) as (Hdd & _ & _). destruct Hd as (Hr & Hw).
   destruct (node_is_dir_get _ _ Hdd) as (chd & md & Hg).
   assert (Hfr' : alookup str_eqb c chd = None) by (unfold children in Hfr; rewrite Hg in Hfr; exact Hfr).
   cbn [create_dir fst snd f_heap].
-  set (mx := new_meta v (dir_mode (v_os v)) (N.land perm (511 + MODE_STICKY))).
+  set (mx := new_dir_meta v (meta_of (f_heap s) dn) perm).
   destruct (alloc_new (f_heap s) (v_user v) dn c mx chd md Hg Ha) as (N1 & N2 & N3 & N4).
-  split; [split|split].
+  split; [split|].
   - apply (alloc_dir_old (f_heap s) (v_user v) dn c mx chd md Hg Ha). exact Hr.
   - eapply dwalk_snoc; [|exact N1|exact N3|exact N4].
     apply (dwalk_alloc (f_heap s) (v_user v) dn c mx chd md Hg Hfr' Ha); assumption.
   - exact N2.
-  - unfold meta_of. rewrite (alloc_get (f_heap s) dn c mx chd md Hg).
-    pose proof (get_lt _ _ _ Hg) as Hlt.
-    assert (Hne : Nat.eqb (length (f_heap s)) dn = false) by (apply Nat.eqb_neq; lia).
-    rewrite Hne, Nat.ltb_irrefl, Nat.eqb_refl. cbn [node_meta]. apply new_dir_not_setgid. exact Hos.
 Qed.
 
 Lemma mk_chain_at (v : view) (perm : N) : v_os v = Linux -> us_admin (v_user v) = true ->
@@ -136,12 +117,12 @@ Lemma mk_chain_at (v : view) (perm : N) : v_os v = Linux -> us_admin (v_user v) 
   let s' := fst (mk_chain s v dn rest perm) in
   let n' := snd (mk_chain s v dn rest perm) in
   dir_at s' v (done ++ rest) n'
-  /\ (rest <> [] -> children (f_heap s') n' = [] /\ is_setgid (m_mode (meta_of (f_heap s') n')) = false).
+  /\ (rest <> [] -> children (f_heap s') n' = []).
 Proof.
   intros Hos Ha. induction rest as [|c rest IH]; intros s done dn Hd Hfr.
   - cbn [mk_chain fst snd]. rewrite app_nil_r. split; [exact Hd|congruence].
-  - cbn [mk_chain]. destruct (create_dir_at s v done dn c perm Hos Ha Hd (Hfr _ _ eq_refl)) as (A & B & C).
-    destruct (create_dir s v dn c perm) as [s1 n] eqn:E. cbn [fst snd] in A, B, C.
+  - cbn [mk_chain]. destruct (create_dir_at s v done dn c perm Hos Ha Hd (Hfr _ _ eq_refl)) as (A & B).
+    destruct (create_dir s v dn c perm) as [s1 n] eqn:E. cbn [fst snd] in A, B.
     assert (Hfr1 : forall c' r, rest = c' :: r -> alookup str_eqb c' (children (f_heap s1) n) = None)
       by (intros c' r _; rewrite B; reflexivity).
     destruct (IH s1 (done ++ [c]) n A Hfr1) as (I1 & I2). rewrite <- app_assoc in I1. cbn [app] in I1.
@@ -163,7 +144,7 @@ Proof.
     rewrite (@pi_next_step (done ++ [c]) (done ++ [c]) [] _ Hok (eq_sym (app_nil_r _)) (on_comp_before _ _ _)).
     reflexivity.
   - cbn [mkdir_all_loop mk_chain]. destruct (on_comp_views done (c2 :: todo) c) as (V1 & _). rewrite V1, Hfr.
-    destruct (create_dir_at s v done dn c perm Hos Ha Hd Hfr) as (A & B & _).
+    destruct (create_dir_at s v done dn c perm Hos Ha Hd Hfr) as (A & B).
     destruct (create_dir s v dn c perm) as [s1 n]. cbn [fst snd] in A, B. rewrite Hos.
     assert (Ecs : done ++ c :: c2 :: todo = (done ++ [c]) ++ c2 :: todo) by (rewrite <- app_assoc; reflexivity).
     rewrite (@pi_next_step (done ++ c :: c2 :: todo) (done ++ [c]) (c2 :: todo) _ Hok Ecs (on_comp_before _ _ _)).
@@ -302,10 +283,10 @@ Section Calls.
   Lemma kmkdir_at (s : fsys) (pre : list str) (n : nat) (c : str) :
     Forall good_comp (pre ++ [c]) -> dir_at s v pre n ->
     alookup str_eqb c (children (f_heap s) n) = None ->
-    is_setgid (m_mode (meta_of (f_heap s) n)) = false -> length pre < WALK_FUEL ->
+    length pre < WALK_FUEL ->
     k_mkdir s sv (abs_path (pre ++ [c])) perm = (fst (create_dir s v n c perm), SOk).
   Proof.
-    intros Hg Hd Hfr Hsg Hf. destruct (dir_at_dir _ _ _ _ Ha Hd) as (Hpd & Hpk & Hrk). destruct Hd as (Hr & Hw).
+    intros Hg Hd Hfr Hf. destruct (dir_at_dir _ _ _ _ Ha Hd) as (Hpd & Hpk & Hrk). destruct Hd as (Hr & Hw).
     destruct (node_is_dir_get _ _ Hpd) as (ch & m & Hgp).
     unfold k_mkdir. rewrite (klookup_abs_path s sv true false _ Hg).
     assert (Ef : WALK_FUEL = length pre + S (WALK_FUEL - S (length pre))) by lia. rewrite Ef.
@@ -315,8 +296,7 @@ Section Calls.
     rewrite kwalk_S, Hpd, Hpk. cbn [negb andb is_nil].
     destruct (good_comp_kind c (Forall_inv Hg2)) as (K1 & K2). rewrite K1, K2, Hfr.
     rewrite (kperm_admin _ _ _ 3 _ Ha Hgp). cbn [negb].
-    unfold create_dir, alloc_child, kmeta, new_meta, new_owner_gid. rewrite Hsg, Hos. cbn [fst dir_mode andb].
-    rewrite land_dir_bits. reflexivity.
+    rewrite create_dir_alloc by exact Hos. reflexivity.
   Qed.
 End Calls.
 
@@ -359,12 +339,11 @@ Section Go.
   Lemma go_chain : forall rest : list str,
     Forall good_comp (done ++ rest) ->
     (forall c r, rest = c :: r -> alookup str_eqb c (children (f_heap s) par) = None) ->
-    (rest <> [] -> is_setgid (m_mode (meta_of (f_heap s) par)) = false) ->
     length (done ++ rest) < WALK_FUEL ->
     forall f, length rest < f ->
     go_mkdir_all f s sv (abs_path (done ++ rest)) perm = (fst (mk_chain s v par rest perm), SOk).
   Proof.
-    induction rest as [|last init IH] using rev_ind; intros Hg Hfr Hsg Hlen f Hf;
+    induction rest as [|last init IH] using rev_ind; intros Hg Hfr Hlen f Hf;
       (destruct f as [|f]; [lia|]); rewrite go_mkdir_all_S.
     - rewrite app_nil_r in *. destruct (kstat_dir sv Ha s done par Hg Hd Hlen) as (i & -> & Hi).
       rewrite Hi, Hbit. reflexivity.
@@ -392,7 +371,6 @@ Section Go.
         - apply IH.
           + exact Hg'.
           + intros c r E. apply (Hfr c (r ++ [last])). rewrite E. reflexivity.
-          + intros Hn. apply Hsg. apply app_ne_r. discriminate.
           + exact Hlen'.
           + lia. }
       rewrite Hrec.
@@ -401,15 +379,13 @@ Section Go.
         by (intros c r E; apply (Hfr c (r ++ [last])); rewrite E; reflexivity).
       destruct (mk_chain_at v perm Hos Ha init s done par Hd Hfr0) as (A & B).
       rewrite mk_chain_app. destruct (mk_chain s v par init perm) as [s1 n1] eqn:E1. cbn [fst snd] in A, B |- *.
-      assert (Hl1 : alookup str_eqb last (children (f_heap s1) n1) = None
-                    /\ is_setgid (m_mode (meta_of (f_heap s1) n1)) = false).
+      assert (L1 : alookup str_eqb last (children (f_heap s1) n1) = None).
       { destruct init as [|c i'].
-        - cbn [mk_chain] in E1. injection E1 as <- <-. split; [apply (Hfr last []); reflexivity|apply Hsg; discriminate].
-        - destruct (B ltac:(discriminate)) as (B1 & B2). rewrite B1. auto. }
-      destruct Hl1 as (L1 & L2).
+        - cbn [mk_chain] in E1. injection E1 as <- <-. apply (Hfr last []); reflexivity.
+        - rewrite (B ltac:(discriminate)). reflexivity. }
       assert (Hg2 : Forall good_comp ((done ++ init) ++ [last])) by (rewrite <- app_assoc; exact Hg).
       rewrite app_assoc.
-      rewrite (kmkdir_at sv perm Hos Ha s1 (done ++ init) n1 last Hg2 A L1 L2 Hlen').
+      rewrite (kmkdir_at sv perm Hos Ha s1 (done ++ init) n1 last Hg2 A L1 Hlen').
       cbn [mk_chain]. destruct (create_dir s1 v n1 last perm) as [s2 n2]. reflexivity.
   Qed.
 End Go.
@@ -422,18 +398,17 @@ Theorem step_mkdir_all (s : fsys) (sv : sview) (perm : N) (done rest : list str)
   dir_at s v done par ->
   (forall c r, rest = c :: r -> alookup str_eqb c (children (f_heap s) par) = None) ->
   has (m_mode (meta_of (f_heap s) par)) MODE_DIR = true ->
-  (rest <> [] -> is_setgid (m_mode (meta_of (f_heap s) par)) = false) ->
   length (done ++ rest) < SEARCH_FUEL ->
   let p := abs_path (done ++ rest) in
   (fst (mkdir_all s v p perm), proj_res Linux (snd (mkdir_all s v p perm))) = go_mkdir_all (S (length p)) s sv p perm
   /\ go_mkdir_all (S (length p)) s sv p perm = (fst (mk_chain s v par rest perm), SOk).
 Proof.
-  intros v Hos Ha Hg Hd Hfr Hbit Hsg Hlen p.
+  intros v Hos Ha Hg Hd Hfr Hbit Hlen p.
   assert (Hok : Forall comp_ok (done ++ rest)) by (eapply Forall_impl; [|exact Hg]; apply good_comp_ok).
   assert (Hw : length (done ++ rest) < WALK_FUEL) by (unfold SEARCH_FUEL, WALK_FUEL in *; lia).
   assert (Hf : length rest < S (length p)).
   { pose proof (abs_path_len _ Hok) as Hl. rewrite app_length in Hl. unfold p. lia. }
-  pose proof (go_chain s sv perm done par Hos Ha Hd Hbit rest Hg Hfr Hsg Hw _ Hf) as G.
+  pose proof (go_chain s sv perm done par Hos Ha Hd Hbit rest Hg Hfr Hw _ Hf) as G.
   split; [|exact G]. unfold p in *. rewrite G.
   rewrite (impl_mkdir_all s v perm done rest par Hos Ha Hg Hd Hfr Hlen). reflexivity.
 Qed.
@@ -461,7 +436,6 @@ Module StepMkdirAllExamples.
     - split; reflexivity.
     - intros c r [= <- <-]. reflexivity.
     - reflexivity.
-    - intros _. reflexivity.
     - unfold SEARCH_FUEL. cbn [length app]. lia.
   Qed.
 
